@@ -64,8 +64,9 @@ Definition issue1 (last : N) (r : req) : N * N :=
 
 (* ---------- histories and what is observable ---------- *)
 
-(* input: a request is issued, or the peer acknowledges the j-th issued request (0-based, counting
-   every request) *)
+(* input: a request is issued, or the j-th issued request (0-based, counting every request) ends:
+   the peer acknowledges it, or its caller abandons it (context cancelled / timed out) — for the
+   bookkeeping of identifiers both simply end the request *)
 Inductive hev := HReq (r : req) | HAck (j : N).
 
 (* observable: request r of caller k went out with identifier id (for QoS 0 the identifier is
@@ -338,3 +339,37 @@ Definition run_retry (ops : list xop) : wire := run_retry_from (RS 0 0 false O [
 (* a transmitted message is in order: non-zero identifier, and the caller's if it gave one *)
 Definition sent_ok (m : rmsg) : bool :=
   negb (r_id m =? 0) && ((r_given m =? 0) || (r_id m =? r_given m)).
+
+(* ====================================================================================
+   Retry handles and the client they run on.
+
+   An interrupted request returns an ErrorWithRetry whose handle is later run on ANOTHER BaseClient
+   (RetryClient.Retry after a reconnect). publish.go:162-164: the handle of a publish keeps the
+   message, identifier included (a caller-provided identifier for the new client).
+   subscribe.go:86-89 / unsubscribe.go:62-64: the handle calls subscribeImpl(ctx, cli, ...) /
+   unsubscribeImpl(ctx, cli, ...) — a NEW request on the client it is given, which takes its
+   identifier from THAT client's counter.
+   ==================================================================================== *)
+Inductive handle := HdlPub (qos id : N) | HdlSub | HdlUnsub.
+
+(* the request a handle amounts to on the client it is run on *)
+Definition handle_req (h : handle) : req :=
+  match h with
+  | HdlPub q id => RPub q id
+  | HdlSub => RSub
+  | HdlUnsub => RUnsub
+  end.
+
+(* request r is issued on a client whose counter is a and interrupted before its acknowledgement:
+   the handle it leaves behind *)
+Definition interrupt (a : N) (r : req) : handle :=
+  match r with
+  | RPub q _ => HdlPub q (snd (issue1 a r))
+  | RSub => HdlSub
+  | RUnsub => HdlUnsub
+  end.
+
+(* client B (counter b) goes through history hB, then the handle of a request that was interrupted
+   on client A (counter a) is run on B: what is observed on B *)
+Definition run_handle_on (a : N) (r : req) (b : N) (hB : list hev) : list obs :=
+  run_seq b (hB ++ [HReq (handle_req (interrupt a r))]).
